@@ -493,11 +493,11 @@ func (b *Builder) SetRevisionDate(o interface{}, revisionDate string) {
 func (b *Builder) Unique(o interface{}, unique string) {
 	switch x := o.(type) {
 	case *List:
-		x.unique = append(x.unique, strings.Split(unique, " "))
+		x.unique = append(x.unique, strings.Fields(unique))
 	case *AddDeviate:
-		x.unique = append(x.unique, strings.Split(unique, " "))
+		x.unique = append(x.unique, strings.Fields(unique))
 	case *DeleteDeviate:
-		x.unique = append(x.unique, strings.Split(unique, " "))
+		x.unique = append(x.unique, strings.Fields(unique))
 	default:
 		b.setErr(fmt.Errorf("%T does not support unique, only lists and their deviations do", o))
 	}
@@ -508,7 +508,7 @@ func (b *Builder) Key(o interface{}, keys string) {
 	if !valid {
 		b.setErr(fmt.Errorf("%T does not support key, only lists do", o))
 	} else {
-		i.key = strings.Split(keys, " ")
+		i.key = strings.Fields(keys)
 	}
 }
 
